@@ -41,6 +41,9 @@ def cases(tier):
             add('witness with one more blinding factor per opening', False, witness_tamper={'op': 'extra_blinding'})
         if x > 1:
             add('witness with one blinding factor fewer per opening', False, witness_tamper={'op': 'fewer_blinding'})
+            # ... and the same with commitments that ARE reproduced by the short vectors: only the degree check can refuse it
+            for nb in range(1, x):
+                add('witness of extension degree %d (commitments consistent) under a statement of degree %d' % (nb, x), False, blindings_count=nb)
     return out
 
 
